@@ -994,3 +994,43 @@ package gmars
 //@   loop 1
 //@     invariant 0 <= depth && depth <= 12
 //@     decreases [C05] 13 - depth
+
+// ---------------------------------------------------------------------------
+// expressions (C07)
+
+//@ pure decimalTok(v []token, x int) = len(v) == 1 && v[0].typ == tokNumber && v[0].val == sprintf("%d", zeros()[0 := box_Address(x)], 1)
+//@ func (*compiler).loadConstants
+//@   panics [C05][C07]
+//@   requires c != nil && c.values != nil
+//@   modifies c.values[*]
+// the predefined names are bound to the decimal renderings of the configuration's values
+//@   ensures [C07] has(c.values, "CORESIZE") && decimalTok(c.values["CORESIZE"], c.config.CoreSize)
+//@   ensures [C07] has(c.values, "MAXLENGTH") && decimalTok(c.values["MAXLENGTH"], c.config.Length)
+//@   ensures [C07] has(c.values, "MAXPROCESSES") && decimalTok(c.values["MAXPROCESSES"], c.config.Processes)
+//@   ensures [C07] has(c.values, "MINDISTANCE") && decimalTok(c.values["MINDISTANCE"], c.config.Distance)
+
+// sign-run folding: after an operator a run of unary signs is replaced by one "-" iff the number of minus
+// signs in the run is odd. The inner loop's flag must therefore toggle on every "-" (a parity), which is
+// stated per iteration; the emitted sign is "-" exactly when the flag is set.
+//@ func combineSigns
+//@   panics [C05][C07]
+//@   modifies nothing
+//@   loop 1
+//@     invariant 0 <= i && i <= len(expr) + 1 && fresh(arr(out))
+//@     decreases len(expr) + 1 - i
+//@   loop 2
+//@     invariant 0 <= i && i <= len(expr) && fresh(arr(out)) && i >= outer(i)
+//@     backedge [C07] negativeFound == (iter(negativeFound) != (expr[iter(i)].val == "-"))
+//@     decreases len(expr) - i
+
+// "- -" becomes "+"; everything else is copied in order
+//@ func flipDoubleNegatives
+//@   panics [C05][C07]
+//@   modifies nothing
+//@   loop 1
+//@     invariant 0 <= i && i <= len(expr) && fresh(arr(out))
+//@     backedge [C07] len(out) == iter(len(out)) + 1
+//@     backedge [C07] ite(expr[iter(i)].val == "-" && iter(i) + 1 < len(expr) && expr[iter(i) + 1].val == "-",
+//@        i == iter(i) + 2 && out[len(out) - 1].typ == tokSymbol && out[len(out) - 1].val == "+",
+//@        i == iter(i) + 1 && out[len(out) - 1] == expr[iter(i)])
+//@     decreases len(expr) - i
